@@ -45,6 +45,8 @@ TRUSTED_BASE = [
 ]
 
 logging.disable(logging.CRITICAL)
+import warnings  # noqa: E402
+warnings.filterwarnings("ignore", category=RuntimeWarning)      # numpy: mean of an empty selection (judged as NaN == NaN or skipped)
 MARGIN = Fraction(1, 10 ** 6)
 COLS = ["t", "isf", "Qt", "X4_Qt", "msd", "alpha2"]
 TOL = [1e-9, 1e-7, 1e-9, 1e-8, 1e-9, 1e-8]
